@@ -384,8 +384,11 @@ def load_findings():
 
 
 def write_evidence(pid, ev):
-    os.makedirs(os.path.join(VERIF, 'evidence'), exist_ok=True)
-    path = os.path.join(VERIF, 'evidence', pid + '.json')
+    # a run against another tree than /repo (VERIF_REPO: seeded-change experiments) must not replace the evidence
+    # of /repo itself
+    edir = os.path.join(VERIF, 'evidence') if REPO == '/repo' else os.path.join(WORK, 'evidence_other_tree')
+    os.makedirs(edir, exist_ok=True)
+    path = os.path.join(edir, pid + '.json')
     tmp = path + '.tmp'
     with open(tmp, 'w') as f:
         json.dump(ev, f, indent=1, sort_keys=True)
